@@ -279,7 +279,7 @@ pub use crate::handler::{
     verif::{
         decrypt_message, derive_keys_from_pubkey, encrypt_message, generate_session_keys,
         reset_snapshots, sign_nonce, snapshot, whoareyou_ref, whoareyou_ref_nonce, ActiveSnap,
-        HandlerSnapshot, PendingSnap, SessionSnap, VirtualHandler,
+        HandlerSnapshot, PendingSnap, SessionSnap, VSession, VirtualHandler,
     },
     ConnectionDirection, Handler, HandlerIn, HandlerOut, WhoAreYouRef,
 };
@@ -288,4 +288,4 @@ pub use crate::handler::{
 // Scripted service
 // ---------------------------------------------------------------------------------------------
 
-pub use crate::service::verif::ScriptedHandler;
+pub use crate::service::verif::{ScriptedHandler, VIpVote};
